@@ -115,6 +115,17 @@ func latticeFor(fn *fnSpec, param string) []badValue {
 			}
 			p.Signers = s
 		})
+		if fn.Cfg == "cmp" {
+			// too few signers on BIP-32 DERIVED key material (the child must carry the parent's threshold)
+			add("size<=t-on-derived-key", func(p, b *Params) {
+				p.Signers = []party.ID{b.Self}
+				if d, err := cpCMP(b.CMP).DeriveBIP32(1); err == nil {
+					p.CMP = d
+					t := b.CMP.Threshold
+					p.TrueT = &t
+				}
+			})
+		}
 		add("duplicate-peer", func(p, b *Params) { p.Signers = append(cpIDs(b.Signers), firstOther(b.Signers, b.Self)) })
 		add("duplicate-self", func(p, b *Params) { p.Signers = append(cpIDs(b.Signers), b.Self) })
 		add("empty", func(p, b *Params) { p.Signers = []party.ID{} })
@@ -160,6 +171,15 @@ func latticeFor(fn *fnSpec, param string) []badValue {
 			s.S.Points[foreign] = s.S.Points[peerOf(b)]
 			delete(s.RBar.Points, peerOf(b))
 			delete(s.S.Points, peerOf(b))
+		}))
+		// one table names a non-shareholder instead of a signer, the other table is untouched (sizes stay equal)
+		add("S-entry-renamed-to-foreign", pre(func(s *ecdsa.PreSignature, b *Params) {
+			s.S.Points[foreign] = s.S.Points[peerOf(b)]
+			delete(s.S.Points, peerOf(b))
+		}))
+		add("RBar-entry-renamed-to-foreign", pre(func(s *ecdsa.PreSignature, b *Params) {
+			s.RBar.Points[foreign] = s.RBar.Points[peerOf(b)]
+			delete(s.RBar.Points, peerOf(b))
 		}))
 		add("KShare-nil", pre(func(s *ecdsa.PreSignature, b *Params) { s.KShare = nil }))
 		add("KShare-zero", pre(func(s *ecdsa.PreSignature, b *Params) { s.KShare = group.NewScalar() }))
